@@ -178,7 +178,7 @@ OnPresent(ev) ==
        /\ Chk("present.kb", kbAll,
               /\ outm.kb # NoKB /\ outm.kb.hdr # NONE /\ outm.kb.pl # NONE /\ IsObj(outm.kb.hdr) /\ IsObj(outm.kb.pl)
               /\ StrField(outm.kb.hdr, "typ") = "kb+jwt" /\ HdrAlg(outm.kb) = (IF ev.alg = "" THEN "ES256" ELSE ev.alg)
-              /\ DOMAIN outm.kb.pl.f = {"nonce", "aud", "iat", "sd_hash"}
+              /\ {"nonce", "aud", "iat", "sd_hash"} \subseteq DOMAIN outm.kb.pl.f      \* (further claims, e.g. jti, are the holder's business)
               /\ outm.kb.pl.f["nonce"] = ev.nonce /\ outm.kb.pl.f["aud"] = ev.aud
               /\ outm.kb.pl.f["sd_hash"] = JStr(outm.sdh)
               /\ outm.kb.pl.f["iat"].t = "n"
